@@ -164,6 +164,27 @@ pub fn check_content(content: &Content, label: &str, rng: &mut Rng, depth: u8, r
     // a formatter call on this thread whose writer failed midway must leave no trace in later texts
     super::c06::interrupted_write(rng.usize_below(48));
     report.count("interrupted_writes_before_histories", 1);
+    // a neighbour range (one weight moved by one ulp): if the library calls the two equal, they must print alike
+    if let Some((k, w)) = content.iter().nth(rng.usize_below(content.len().max(1))).map(|(k, w)| (*k, *w)) {
+        let bits = w.to_bits();
+        let nudged = if bits >= 0x3f80_0000 { f32::from_bits(bits - 1) } else { f32::from_bits(bits + 1) };
+        let mut other = content.clone();
+        other.insert(k, nudged);
+        let other_range = to_range(&other);
+        let eq = catch(|| other_range == base && base == other_range).unwrap_or(false);
+        report.count("neighbour_ranges_compared", 1);
+        if eq {
+            report.count("neighbour_ranges_called_equal", 1);
+            let t = catch(|| other_range.to_string()).unwrap_or_else(|p| format!("<panic {}>", p));
+            if t != text {
+                report.violate(
+                    format!("equal-but-different-text:{}:{:016x}", label, content_hash(content)),
+                    format!("two ranges the library calls == ({} has weight {} in one, {} in the other) print differently: '{}' vs '{}'", pair_text(k), weight_text(w), weight_text(nudged), clip(&text), clip(&t)),
+                    content_json("canonical", content),
+                );
+            }
+        }
+    }
     let hs = histories(content, &text, rng, depth >= 2);
     report.count("histories_compared", hs.len() as u64);
     let mut texts: Vec<String> = vec![text.clone()];
